@@ -181,7 +181,7 @@ def c15_oligo(rep, d, inputs, tier):
                     for header in (0, 1):
                         libres[(name, k, preset, counts, header)] = None
                         for t in (0, 1, 2, 16):
-                            for src in ("fa", "fq", "fa.gz", "stdin"):
+                            for src in ("fa", "fq", "fa.gz", "fq.gz", "stdin"):
                                 cases.append((name, k, preset, counts, header, t, src))
                         if name == "in37" and preset == "spc":
                             # far more threads than cores and than records
@@ -390,8 +390,6 @@ def c15_others(rep, d, inputs, tier):
                         for counts in (0, 1):
                             for alt in (0, 1):
                                 for t in ((0, 1, 2, 16) if (preset == "spc" and mem == 6) else (2,)):
-                                    if tier != "thorough" and (k == 31 or bs == 16) and (preset != "spc" or alt):
-                                        continue
                                     jobs.append(("cov", name, {"k": k, "bs": bs, "bc": bc, "mem": mem, "preset": preset, "counts": counts, "alt": alt, "t": t}))
     # min
     for name in ("in5", "in37"):
